@@ -1127,6 +1127,14 @@ class xfunc_quantile(xfunc):
                 # wherever it sorts relative to the requested quantile.
                 return NaN
 
+            # Exclude rows with non-positive weight (like SAS EXCLNPWGT): they
+            # carry no mass, and a zero weight at the top of the distribution
+            # would otherwise divide by zero in the interpolation below.
+            positive = w > 0
+            if not numpy.all(positive):
+                a = a[positive]
+                w = w[positive]
+
             N = len(w)
             if N == 0:
                 return NaN
